@@ -394,6 +394,7 @@ def cases(tier, seed):
   out.append(case('inv_sqrtm_d1', inv_sqrtm_case(1), FUNCS, 'arbitrary positive 1x1 matrix', cost=1, validate=4))
   out.append(case('inv_sqrtm_d2', inv_sqrtm_case(2), FUNCS, 'arbitrary symmetric positive definite 2x2 matrix, eigh by contract', cost=20, proof_timeout_ms=120000, validate=4))
   for ch, d, red, tiers in (((0, 0, 1, 1), 2, False, Q), ((0, 0, 1, 1, -1), 2, False, Q), ((0, -1, 1, 0, 1), 2, False, Q), ((0, 0, 1, 1, 2, 2), 2, True, Q), ((0, 0, -1, 1, 1), 2, True, Q),
+                            ((0, 0, 1, 1, 2), 2, False, Q), ((2, 0, 0, 1, 1, 1), 2, True, Q),   # a chunk made of exactly one point
                             ((0, 0, 1, 1, -1, 2, 2), 2, True, T), ((0, 0, 0, 1, 1), 1, False, T)):
     out.append(case('rca_%s_d%d_%s' % (''.join('u' if c < 0 else str(c) for c in ch), d, 'reduced' if red else 'full'), rca_case(ch, d, red), FUNCS,
                     'chunk labels %s (-1 = no chunk), arbitrary points in R^%d, %s' % (list(ch), d, 'n_components=1 (Fisher step, lstsq/eig recorded)' if red else 'full dimension'),
